@@ -1,4 +1,5 @@
 import Sismic.Proofs.C03
+import Sismic.Proofs.Order
 /-!
 # Property C03 — steps run to completion in documented order and the trace tells the truth
 
@@ -93,5 +94,23 @@ theorem run_to_completion (clock : Int) (rs rs' : RS σ ω) (ms : MacroStep)
     have := runChain_stable env.chart (first :: tail) steps _ (by simp) hchain
     rw [← hcm] at this
     exact this
+
+/-- **Exit order of a transition step: innermost first.**  The states `_create_steps` makes a
+    transition exit are the active descendants of the exited subtree, by decreasing depth (ties by
+    name), and last the top of that subtree. -/
+theorem exits_innermost_first (c : Chart) (cfg : List Name) (ev : Option Event) (t : Trans) (tg : Name)
+    (htg : t.target = some tg) :
+    ∃ inner top, (createStep c cfg ev t).exited = inner ++ top ∧ top.length ≤ 1 ∧
+      inner.Pairwise (fun a b => c.depth b < c.depth a ∨ (c.depth a = c.depth b ∧ a ≤ b)) := by
+  simp only [createStep, htg]
+  exact ⟨_, _, rfl, by split <;> simp, exited_sorted c cfg _⟩
+
+/-- **Entry order of a transition step: outermost first.**  Each entered state is the parent of the
+    next one; the last one is the target. -/
+theorem entries_outermost_first (c : Chart) (hT : TreeOK c) (cfg : List Name) (ev : Option Event)
+    (t : Trans) (tg : Name) (htg : t.target = some tg) :
+    DownChain c (createStep c cfg ev t).entered ∧ (createStep c cfg ev t).entered.getLast? = some tg := by
+  simp only [createStep, htg]
+  exact ⟨enteredPath_downChain c hT tg _, by simp⟩
 
 end Sismic.C03
